@@ -98,6 +98,15 @@ def install(m):
     L['Bytes::from_static'] = lambda m, a, c, rt: VecObj(list(elems_of(m, a[0])), 'bytes')
     L['copy_from_slice:Bytes'] = L['Bytes::from_static']
 
+    # ---- derive_builder / scratchstack-aws-principal values
+    L['convert:UninitializedFieldError'] = lambda m, v: Adt('UninitializedFieldError', None, [v])
+    L['UninitializedFieldError::field_name'] = lambda m, a, c, rt: deref(m, a[0]).fields[0]
+    L['UninitializedFieldError::new'] = lambda m, a, c, rt: Adt('UninitializedFieldError', None, [a[0]])
+    L['default:Principal'] = lambda m: Opaque('Principal', 'default')
+    L['default:SessionData'] = lambda m: Opaque('SessionData', 'default')
+    L['Principal::new'] = lambda m, a, c, rt: Opaque('Principal', 'new')
+    L['SessionData::new'] = lambda m, a, c, rt: Opaque('SessionData', 'new')
+
     # ---- encoding crate
     install_encoding(m)
 
